@@ -94,7 +94,12 @@ func c18LiteralSeed(r *core.Rng) string {
 		}
 		return "`" + sb.String() + "`"
 	}
-	switch r.Intn(6) {
+	switch r.Intn(7) {
+	case 6:
+		// function names that are quoted identifiers (user-defined functions may be called anything)
+		fns := []string{"`a^b`", "`v[1]`", "`sq]`", "`back\\slash`", "`my f`", "`my-f`", "`2f`", "`select`", "`né`", "`a.b`", "`x_1`", "`UPPER`", ident()}
+		f := fns[r.Intn(len(fns))]
+		return "SELECT " + f + "(" + lit() + "), " + f + "(1, c1) + 1, " + f + "() OVER (), " + f + "(DISTINCT c1) FROM t"
 	case 5:
 		// column references qualified by a table name that needs its quotes
 		qs := []string{"`my-t`", "`my t`", "`2019`", "`order`", "`a.b`", "`select`", "`t`", "`né`", "`x y`.`z w`", ident()}
